@@ -86,11 +86,11 @@ def make_values(rng, profile, n, le, re_):
 XUNITS = {b'FEET': 1.0, b'.1IN': 120.0, b'M   ': 0.3048}        # frame-unit values per foot
 
 
-def build_log_pass(rng, names, profiles, scales, n, up, xunits=b'FEET'):
+def build_log_pass(rng, names, profiles, scales, n, up, xunits=b'FEET', absent=-999.25):
     chans = [dict(mnem=b'DEPT', units=xunits, size=4, samples=1, rc=68, nvals=1)]
     for nm in names:
         chans.append(dict(mnem=nm, units=b'MV  ', size=4, samples=1, rc=68, nvals=1))
-    blocks = {4: (1, 66, 1 if up else 255), 12: (4, 68, -999.25)}
+    blocks = {4: (1, 66, 1 if up else 255), 12: (4, 68, absent)}          # the absent value the file declares (0.0 is a legal one)
     lrs = [GLL.file_head(), GLL.dfsr(blocks, chans)]
     x0 = {b'FEET': 1000.0, b'.1IN': 120000.0, b'M   ': 304.75}[xunits]          # about 1000 ft, exact in code 68
     dx = (-1 if up else 1) * {b'FEET': 0.5, b'.1IN': 60.0, b'M   ': 0.25}[xunits]          # multiples of 0.01 so that the 1e-2 quantisation of x is exact
@@ -100,9 +100,9 @@ def build_log_pass(rng, names, profiles, scales, n, up, xunits=b'FEET'):
         if prof['absent']:
             k = rng.randrange(n)
             for j in range(k, min(n, k + rng.choice([1, 1, 2, 4]))):
-                vals[j] = -999.25
+                vals[j] = absent
             if rng.random() < 0.5:
-                vals[rng.randrange(n)] = -999.25
+                vals[rng.randrange(n)] = absent
         cols.append(vals)
     xs = [x0 + i * dx for i in range(n)]
     g = 0
@@ -396,7 +396,13 @@ def run(ctx):
         # the frames' X units and the units the plot range is asked in are independent
         xunits, runits = rng.choice([(b'FEET', b'FEET'), (b'FEET', b'FEET'), (b'.1IN', b'FEET'), (b'FEET', b'.1IN'), (b'.1IN', b'.1IN'), (b'M   ', b'M   ')])
         case.update(xunits=xunits.decode(), range_units=runits.decode())
-        data, xs, cols = build_log_pass(rng, outs, profs, scales, n, up, xunits)
+        absent = rng.choice([-999.25, -999.25, -9999.0, 0.0])
+        if absent != -999.25:
+            # a value generated for the curve must not collide with the declared absent value
+            profs = [dict(p_, kind='ramp' if p_['kind'] in ('constant', 'inside', 'tiny') and absent == 0.0 else p_['kind']) for p_ in profs]
+        case['absent'] = absent
+        data, xs, cols = build_log_pass(rng, outs, profs, scales, n, up, xunits, absent)
+        cols = [[(absent if (v == absent) else v) for v in c_] for c_ in cols]
         f = File.FileRead(io.BytesIO(data), 'lp', keepGoing=False)
         idx = FileIndexer.FileIndex(f)
         lp = list(idx.genLogPasses())[0].logPass
@@ -416,7 +422,7 @@ def run(ctx):
             if any(e['op'] == 'wrap' for e in events):
                 ctx.fail('no SVG file written', case, sig=dict(kind='no-svg'))
             continue
-        source = {o.decode().strip(): (xs, c, -999.25) for o, c in zip(outs, cols)}
+        source = {o.decode().strip(): (xs, c, absent) for o, c in zip(outs, cols)}
         trs, geom = curve_traces(ctx, events, source, case)
         for tr, m in trs:
             traces.append(tr)
@@ -438,7 +444,7 @@ def run(ctx):
                              sig=dict(kind='plot-raises', error=type(e).__name__, where='detail'))
                     continue
             if os.path.exists(fp2):
-                src2 = {o.decode().strip(): (xs[a_:b_ + 1], c[a_:b_ + 1], -999.25) for o, c in zip(outs, cols)}
+                src2 = {o.decode().strip(): (xs[a_:b_ + 1], c[a_:b_ + 1], absent) for o, c in zip(outs, cols)}
                 trs2, geom2 = curve_traces(ctx, events2, src2, case2)
                 for tr, m in trs2:
                     traces.append(tr)
